@@ -124,6 +124,7 @@ ADD6 = {
  "C12": "Round 6: field stores through pointer parameters are instantiated at the call sites (records of a package-level table handed out by pointer).",
  "C14": "Round 6: the InnerText collector rule (C04-V5) is shared: text values read from elements leave out hidden parts, the element asked for included.",
  "C15": "Round 6: MarkupInfo.Title is the unchanged Title() answer.",
+ "C16": "Round 6: Apply runs the finders only for a page URL with a host.",
  "C19": "Round 6: frame addresses are resolved against the caller's page URL only (C06-U6 shared).",
  "C20": "Round 6: the word counter for the threshold is chosen from the whole text of the document element.",
 }
